@@ -566,6 +566,8 @@ def run_edit(src, edit, root=None):
             fa = edit.get('fieldarg')
             if op == 'delete':
                 f.put_slice(None, idx, idx + 1, fa, **opts)
+            elif op == 'replace':
+                f.put_slice(edit['code'], idx, idx + 1, fa, one=edit.get('one', True), **opts)
             else:
                 f.put_slice(edit['code'], idx, idx, fa, one=edit.get('one', True), **opts)
         elif op == 'delete' and edit.get('how') == 'cut':
@@ -584,6 +586,20 @@ def run_edit(src, edit, root=None):
     item['bad_spans'] = list(_CALLS)
     item['after'] = new_src
     item['changed'] = new_src != src
+    if kind == 'expr':
+        # the source text of every OTHER element of the container is still there (judged before the parse gate: damage to a sibling,
+        # e.g. a string literal cut at a '#', often leaves source that no longer parses or tokenizes)
+        flat_new = ''.join(new_src.split())
+        for j, sib in enumerate(lst):
+            if j == idx and op != 'insert':
+                continue
+            ss, se = _node_span(lines, sib)
+            seg = '\n'.join([lines[ss[0]][ss[1]:]] + lines[ss[0] + 1:se[0]] + [lines[se[0]][:se[1]]]) if se[0] > ss[0] else lines[ss[0]][ss[1]:se[1]]
+            if ''.join(seg.split()) not in flat_new:
+                item['violations'] = [{'cls': 'sibling-text-changed', 'what': f'the text of the untouched element {seg[:60]!r} is no longer in the source',
+                                       'detail': seg}]
+                item['outcome'] = 'violation'
+                return item
     if op == 'delete' and kind == 'stmt':
         # a deleted statement leaves no NEW text behind: every non-blank line of the result is a line of the original, a protected
         # comment that lost its statement, a `pass` filler, or the remains of a line the statement shared with other code
@@ -617,6 +633,24 @@ def run_edit(src, edit, root=None):
     allow_pos = ()
     if edit.get('reindent'):
         allow_pos = {_node_span(lines, lst[0])[0]}          # the `elif` keyword becomes `else:` + `if`
+        # option docstr: True = every multi-line Expr string may be re-indented with its block, 'strict' = only those in docstring
+        # position, False = none; all other string literals never
+        dv = opts.get('docstr', edit.get('docstr_effective', True))
+        if dv:
+            for n in ast.walk(tree):
+                body = getattr(n, 'body', None)
+                if not isinstance(body, list):
+                    continue
+                for k, st in enumerate(body):
+                    if isinstance(st, ast.Expr) and isinstance(st.value, ast.Constant) and isinstance(st.value.value, str) and st.end_lineno > st.lineno:
+                        if dv is True or (k == 0 and isinstance(n, (ast.FunctionDef, ast.AsyncFunctionDef, ast.ClassDef, ast.Module))):
+                            allow_pos.add(_span(lines, st.value)[0])
+            for n in ast.walk(tree):            # Expr strings in orelse / finalbody / handlers bodies as well
+                for fld_ in ('orelse', 'finalbody'):
+                    for st in getattr(n, fld_, []) or []:
+                        if dv is True and isinstance(st, ast.Expr) and isinstance(st.value, ast.Constant) and isinstance(st.value.value, str) \
+                                and st.end_lineno > st.lineno:
+                            allow_pos.add(_span(lines, st.value)[0])
     pforce, pskip = set(), set()
     if op == 'insert' and kind == 'expr' and idx > 0:
         # the line comment after the previous element belongs to it exactly when that element starts its own line (ast extent)
@@ -676,8 +710,8 @@ def edit_cases(arg):
         if path is None:
             continue
         edit = {'op': 'insert', 'kind': 'stmt', 'path': path, 'pkind': pkind, 'field': fld, 'idx': rng.choice([0, 1, 1]),
-                'code': rng.choice(['done = True  # newd', 'nn()']), 'trivia': rng.choice([True, False, 'all']), 'options': {},
-                'reindent': True}
+                'code': rng.choice(['done = True  # newd', 'nn()']), 'trivia': rng.choice([True, False, 'all']),
+                'options': rng.choice([{}, {'docstr': False}, {'docstr': 'strict'}, {'docstr': True}]), 'reindent': True}
         try:
             out.append(run_edit(src, edit))
         except Exception as ex:
@@ -1460,4 +1494,94 @@ def expr_product_cases(chunk):
         if not it['violations'] and not it.get('bad_spans'):
             it.pop('after', None)
         out.append(it)
+    return out
+
+
+# ---------------------------------------------------------------------------------------------------------------------
+# re-indenting insertions (elif -> else: + if) x what the re-indented block contains x docstr option x channel
+
+RI_BLOCKS = ['    """doc\n  like\n    """\n    y = 2', '    y = 2\n    """mid\n  str\n"""\n    z = 3', "    s = \'\'\'as\n  signed\n\'\'\'",
+             '    b = b"""by\n  tes"""  # cy', '    def g():\n        """real doc\n          string\n        """\n        return 1',
+             '    f"""f\n  {y}\n"""', '    x = [\n  1,  # c1\n        2]']
+
+
+def reindent_product():
+    out = []
+    for blk in RI_BLOCKS:
+        for tail in ['', '\nelse:\n    w = 4  # cw']:
+            for wrap, ind in (('', ''), ('def f():\n', '    ')):
+                src = 'if a:\n    x = 1\nelif b:  # cb\n' + blk + tail
+                src = wrap + '\n'.join(ind + l if l.strip() and not _in_string_line(src, k) else l for k, l in enumerate(src.split('\n'))) + '\n'
+                try:
+                    ast.parse(src)
+                except SyntaxError:
+                    continue
+                path = [('body', 0)] + ([('body', 0)] if wrap else [])
+                for idx in (0, 1):
+                    for dv in (True, False, 'strict'):
+                        for ch in ('call', 'with'):
+                            out.append((src, {'op': 'insert', 'kind': 'stmt', 'path': path, 'pkind': 'If', 'field': 'orelse', 'idx': idx,
+                                              'code': 'done = True  # newd', 'trivia': True, 'options': {'docstr': dv} if ch == 'call' else {},
+                                              'docstr_effective': dv, 'channel': ch, 'reindent': True}))
+    return out
+
+
+def _in_string_line(src, k):
+    """is line k (0-based) of src a continuation line inside a multi-line string token?"""
+    try:
+        for t in toks(src):
+            if t.type == tokenize.STRING or tokenize.tok_name[t.type].startswith('FSTRING'):
+                if t.start[0] - 1 < k <= t.end[0] - 1:
+                    return True
+    except Exception:
+        pass
+    return False
+
+
+def reindent_product_cases(chunk):
+    from fst import FST
+    import hashlib
+    out = []
+    for src, edit in chunk:
+        try:
+            if edit['channel'] == 'with':
+                with FST.options(docstr=edit['docstr_effective']):
+                    it = run_edit(src, edit)
+            else:
+                it = run_edit(src, edit)
+        except Exception as ex:
+            it = {'src': src, 'edit': edit, 'op': 'insert', 'field': 'If.orelse', 'violations': [], 'changed': False,
+                  'outcome': 'harness:' + type(ex).__name__ + ':' + str(ex)[:80], 'bad_spans': []}
+        it['key'] = hashlib.blake2b((src + repr(edit)).encode(), digest_size=8).hexdigest()
+        out.append(it)
+    return out
+
+
+# unenclosed comma lists that get line continuations when a multi-line slice is put: string literals with '#' on the same line
+
+LC_STMTS = [   # (kind, source, path to container, my field, pfst field arg)
+    ('Delete', 'del aa, bb.c["x # y"], cc["# z"]  # c9\n', [('body', 0)], 'targets', None),
+    ('Tuple', 'x = aa, bb["x # y"], cc["# z"]  # c9\n', [('body', 0), ('value', None)], 'elts', None),
+    ('Tuple', 'def f():\n    return aa, bb["x # y"], cc("# z")  # c9\n', [('body', 0), ('body', 0), ('value', None)], 'elts', None),
+    ('Tuple', 'for i in aa, bb["x # y"], cc["# z"]: pass  # c9\n', [('body', 0), ('iter', None)], 'elts', None),
+    ('With', 'with aa, bb("x # y"), cc("# z"): pass  # c9\n', [('body', 0)], 'items', 'items'),
+    ('Import', 'import aa, bb as b2, cc  # c9 "#"\n', [('body', 0)], 'names', None),
+    ('ImportFrom', 'from m import aa, bb as b2, cc  # c9\n', [('body', 0)], 'names', None),
+    ('Tuple', 'x = aa, "p # q" "r # s", cc, f"{dd} # t"  # c9\n', [('body', 0), ('value', None)], 'elts', None),
+]
+
+
+def linecont_product():
+    out = []
+    for (kind, src, path, fld, fa) in LC_STMTS:
+        n = 4 if 'f"{dd}' in src else 3
+        codes = ['q,\nr', 'q, \\\nr'] if kind not in ('Import', 'ImportFrom') else ['q,\nr']
+        for code in codes:
+            for i in range(n):
+                for op in ('replace', 'insert'):
+                    for tr in (True, [False, False]):
+                        out.append((src, {'op': op, 'kind': 'expr', 'path': path, 'pkind': kind, 'field': fld, 'idx': i, 'code': code,
+                                          'trivia': tr, 'options': {}, 'via': 'slice', 'fieldarg': fa, 'one': False}))
+            out.append((src, {'op': 'insert', 'kind': 'expr', 'path': path, 'pkind': kind, 'field': fld, 'idx': n, 'code': code,
+                              'trivia': True, 'options': {}, 'via': 'slice', 'fieldarg': fa, 'one': False}))
     return out
